@@ -229,6 +229,15 @@ def run_check(pid: str, tier: str, seed: int) -> int:
     lean_fail_detail += frame_fail
     obligations += frame_obl
     discharged += frame_ok
+    # constant call depth (C15): the call graph of the extracted functions has no cycle
+    acyclic = call_graph_acyclic(ex)
+    if pid == "C15":
+        obligations.append("callgraph.acyclic")
+        if acyclic:
+            discharged.append("callgraph.acyclic")
+        else:
+            lean_fail_detail.append({"module": "<extractor call graph>", "obligations": ["callgraph.acyclic"],
+                                     "lean_output": "a function under contract calls itself (directly or indirectly): call depth is no longer bounded by a constant"})
     if not_generated:
         lean_fail_detail.append({"module": "<extractor>", "obligations": ["extract." + x.split(":")[0] for x in not_generated],
                                  "lean_output": "obligation could not be generated: " + "; ".join(not_generated)})
@@ -361,7 +370,14 @@ def run_check(pid: str, tier: str, seed: int) -> int:
     cov["undecided"] = status["undecided"]
     cov["known_findings_hit"] = status["known"]
     proved_all = bool(obligations) and len(discharged) == len(obligations) and not lean_fail_detail
-    cov["explanation"] = explanation(pid, spec, obligations, discharged, b_rows, proved_all)
+    top = registry.TOP.get(pid, {})
+    missing_top = [t for t in top.get("theorems", []) if t not in discharged]
+    cov["property_level_theorems"] = [{"name": t, "discharged": t in discharged} for t in top.get("theorems", [])]
+    cov["level_note"] = top.get("note", "")
+    if top.get("level") == "proof" and proved_all and not missing_top:
+        ev["level"] = "proof"
+    cov["explanation"] = explanation(pid, spec, obligations, discharged, b_rows, proved_all, ev["level"], top)
+    cov["call_graph_acyclic"] = acyclic
     cov["abstractions"] = ABSTRACTIONS
     ev["assumptions"] = [f"{k}: {v}" for k, v in ASSUMPTIONS.items()]
     ev["wall_s"] = round(time.time() - t0, 2)
@@ -377,8 +393,29 @@ def run_check(pid: str, tier: str, seed: int) -> int:
     return exit_code
 
 
-def explanation(pid, spec, obligations, discharged, b_rows, proved_all) -> str:
+def call_graph_acyclic(ex) -> bool:
+    color = {}
+
+    def visit(k):
+        if color.get(k) == 1:
+            return False
+        if color.get(k) == 2:
+            return True
+        color[k] = 1
+        for callee, _ in ex.calls.get(k, []):
+            if not visit(callee):
+                return False
+        color[k] = 2
+        return True
+    return all(visit(k) for k in ex.targets)
+
+
+def explanation(pid, spec, obligations, discharged, b_rows, proved_all, level="other", top=None) -> str:
     parts = []
+    if level == "proof":
+        parts.append("Level proof: the property-level theorems " + ", ".join((top or {}).get("theorems", [])) +
+                     " and every contract and lemma they rest on are discharged by the Lean kernel over code extracted from /repo on this run. "
+                     + (top or {}).get("note", "") + " The bounded part below is the refuter scope / model probe, not part of the argument.")
     if obligations:
         parts.append(f"{len(discharged)}/{len(obligations)} Lean obligations (function contracts and lemmas over code extracted from /repo on this run) "
                      f"accepted by the Lean kernel with axioms ⊆ {{propext, Classical.choice, Quot.sound}}.")
